@@ -19,12 +19,12 @@ CHECKS = {
          "DESIGN.md section 7, C02"),
  "C03": ("exploration",
          "bounded exhaustive enumeration of syntactically clean programs (token soup, wider grammar in every context, single semantic faults over all sites) through the full analysis in isolated worker processes",
-         "Every token sequence of <= 3 (thorough 4: 7e7) tokens that the implementation parses without diagnostics, ~460 statements of the wider grammar (all operators, literal kinds, blocks, box, arrays, extern, defcal, cal, old-style declarations, hardware qubits, version statements, ill-typed and ill-scoped uses) alone, inside every one of 16 contexts (thorough: two levels) and in every ordered pair after the prelude, every leaf template and every grid leaf (statement form x operand form, qualifier x type, assignment operator x target) in every context with and without its declarations, and single semantic faults exhaustive over sites (each prelude declaration deleted, duplicated, retyped to each of 10 types, turned into a qubit, made const; gate and subroutine calls with wrong arity under each modifier) are analysed; a panic, a dead or stalled worker, or a scope stack not back at the global scope is a violation.",
+         "Every token sequence of <= 3 (thorough 4: 7e7) tokens that the implementation parses without diagnostics, ~460 statements of the wider grammar (all operators, literal kinds, blocks, box, arrays, extern, defcal, cal, old-style declarations, hardware qubits, version statements, ill-typed and ill-scoped uses) alone, inside every one of 17 contexts (thorough: two levels) and in every ordered pair after the prelude, every leaf template and every grid leaf (statement form x operand form, qualifier x type, assignment operator x target) in every context with and without its declarations, and single semantic faults exhaustive over sites (each prelude declaration deleted, duplicated, retyped to each of 10 types, turned into a qubit, made const; gate and subroutine calls with wrong arity under each modifier) are analysed; a panic, a dead or stalled worker, or a scope stack not back at the global scope is a violation.",
          "Which programs are syntactically clean is decided by the implementation. The panic sites of unsupported constructs are recorded as known findings keyed by panic message + source text of the panicking line + trigger token (DESIGN.md 10.4); those repaired by fix: commits are in 10.3. Hook oq3_verif gives the scope depth.",
          "DESIGN.md section 7, C03"),
  "C04": ("exploration",
          "bounded exhaustive enumeration of derivations of a reference grammar, each under every printing, through both parse entry points",
-         "All spines of <= 2 (thorough 3, and 4-5 over the reduced context set) compound-statement contexts (16 contexts: each body of if/else/while/for/case/default/gate/def as block or single statement) around ~65 leaf statement templates and (to depth 1, thorough 2) around 268 grid leaves (17 quantum statement forms x 8 operand forms, 6 declaration qualifiers x 16 types, 12 assignment operators x 3 target forms), all sequences of 2 (thorough 3) statements, all two- and three-operator expression trees over 19 binary and 3 unary operators in 12 expression positions, printed with minimal, full and redundant parentheses and 7 uniform separator flavours; plus 54 statement texts of constructs outside the model grammar that the parser supports (arrays, extern, calibration, old-style registers, durationof, alias concatenation, built-in calls) in 5 positions x 6 separator flavours; any diagnostic of SourceFile::parse or parse_check_lex is a violation. Every context x construct pair is present by construction.",
+         "All spines of <= 2 (thorough 3, and 4-5 over the reduced context set) compound-statement contexts (17 contexts: each body of if/else/while/for/case/default/gate/def as block or single statement) around ~65 leaf statement templates and (to depth 1, thorough 2) around 268 grid leaves (17 quantum statement forms x 8 operand forms, 6 declaration qualifiers x 16 types, 12 assignment operators x 3 target forms), all sequences of 2 (thorough 3) statements, all two- and three-operator expression trees over 19 binary and 3 unary operators in 12 expression positions, printed with minimal, full and redundant parentheses and 7 uniform separator flavours; plus 54 statement texts of constructs outside the model grammar that the parser supports (arrays, extern, calibration, old-style registers, durationof, alias concatenation, built-in calls) in 5 positions x 6 separator flavours; any diagnostic of SourceFile::parse or parse_check_lex is a violation. Every context x construct pair is present by construction.",
          "The model grammar is listed in DESIGN.md 4.4; arrow measurement and box statements, which the parser does not accept, are outside the claim. Genuine rejections are recorded as known findings keyed by message + construct (DESIGN.md 10.4); repaired ones are in 10.3.",
          "DESIGN.md section 7, C04"),
  "C05": ("exploration",
@@ -89,7 +89,7 @@ CHECKS = {
          "DESIGN.md section 7, C16"),
  "C17": ("exploration",
          "exhaustive enumeration of relational variants (layouts within a gap-deviation bound, renamings, all split points, repeated analysis) of every generated program; differential equality with no hand-written expected value",
-         "Every leaf template alone and inside each of 16 contexts after its declarations, every leaf behind one or two annotation lines, supported grid leaves, statement sequences (with annotation lines) and (thorough) programs with one injected semantic fault are analysed under: the 7 uniform layouts and every layout deviating from the default in <= 1 gap (thorough <= 2 gaps for short statements) of the statements after the prelude with each of 6 separator flavours (all gaps for the first program); 4 fixed injective renamings of all user identifiers (ASCII, leading underscore, Unicode, keyword-prefixed) plus rotations, reversal and every adjacent swap of the identifiers among themselves; every split at a top-level statement boundary (also directly after annotation lines); and twice unchanged. Graph equality (PartialEq), symbol table equality up to the renaming, equal diagnostic kinds (up to the renaming), prefix property for statements / symbols / diagnostics, and full equality including positions for the repeated run.",
+         "Every leaf template alone and inside each of 17 contexts after its declarations, every leaf behind one or two annotation lines, supported grid leaves, statement sequences (with annotation lines) and (thorough) programs with one injected semantic fault are analysed under: the 7 uniform layouts and every layout deviating from the default in <= 1 gap (thorough <= 2 gaps for short statements) of the statements after the prelude with each of 6 separator flavours (all gaps for the first program); 4 fixed injective renamings of all user identifiers (ASCII, leading underscore, Unicode, keyword-prefixed) plus rotations, reversal and every adjacent swap of the identifiers among themselves; every split at a top-level statement boundary (also directly after annotation lines); and twice unchanged. Graph equality (PartialEq), symbol table equality up to the renaming, equal diagnostic kinds (up to the renaming), prefix property for statements / symbols / diagnostics, and full equality including positions for the repeated run.",
          "Layouts beyond the deviation bound and renamings beyond the listed families are not covered. Programs not analysed (rejected or panicking) are skipped and counted.",
          "DESIGN.md section 7, C17"),
  "C18": ("exploration",
